@@ -302,6 +302,39 @@ def check(chk, repo, tier):
             chk.ob("C09.stack-use", cons, True,
                    sample={"modifier": key})
 
+    # modifier wrappers: a single element passes its arity on to the lambda ---------
+    n_wrap = 0
+    for key, knode, _ in entries:
+        val = elems.get(key)
+        if not (isinstance(val, tuple) and isinstance(val[1], int)):
+            continue
+        try:
+            lam = gen.lambda_wrap([gen.generic("GENERAL", key)])
+            got = lam.d.get("arity")
+        except Exception as exc:  # noqa: BLE001
+            got = f"raised {exc}"
+        n_wrap += 1
+        chk.ob("C09.wrapper-arity-is-element-arity", f"lambda_wrap({key!r})",
+               got == val[1],
+               f"under a modifier the element {key!r} (arity {val[1]}) is "
+               f"wrapped in a lambda of arity {got}: the wrapper takes "
+               "entries from the stack that the element does not consume "
+               "(or too few)", repo.mod("transpile").rel,
+               witness=f"7 8 ₌{key}!" if val[1] == 0 else f"v{key}")
+    for kind, val in (("NUMBER", "5"), ("STRING", "a"),
+                      ("COMPRESSED_NUMBER", "a"), ("COMPRESSED_STRING", "a"),
+                      ("VARIABLE_GET", "x"), ("CODEPAGE_NUMBER", "a")):
+        try:
+            got = gen.lambda_wrap([gen.generic(kind, val)]).d.get("arity")
+        except Exception as exc:  # noqa: BLE001
+            got = f"raised {exc}"
+        chk.ob("C09.wrapper-arity-is-element-arity",
+               f"lambda_wrap(<{kind}>)", got == 0,
+               f"a {kind} literal pushes one value and pops none, but its "
+               f"wrapper lambda has arity {got}",
+               repo.mod("transpile").rel)
+    chk.floor("lambda_wrap instances", n_wrap, 300)
+
     # structure skeletons --------------------------------------------------------
     pp = gen.it.module("vyxal.parse")
     parse_mods = {n: list(pp.get(n)) for n in (
